@@ -63,24 +63,47 @@ template <class C> struct Runner {
         if (!what.empty()) ctx->violation("", enc, what);
     }
 };
+
+// wchar_t only: names holding a code point above 255.  The statement's round trip has no exception for them; the library escapes the low
+// byte only (the open finding of C16, inherited by the wide filename functions).  Classified by defect emulation: the URI string must be exactly
+// what the char API produces for the same name with a placeholder byte in that place, with the placeholder's triplet replaced by the low byte's.
+static void wide_case(Ctx &ctx, Local &lc, unsigned long x, int shape) {
+    static const char *PRE[] = { "/tmp/", "a/", "C:\\a", "\\\\srv\\", "d\\" }; int dir = shape < 2 ? 0 : 1; bool absolute = shape == 0 || shape == 2 || shape == 3;
+    std::wstring name = widen<wchar_t>(PRE[shape]); name += (wchar_t)x; name += L'z'; Str enc = fmt("H%lx.%d`%d`W", x, shape, dir); lc.names++;
+    size_t cap = 3 * name.size() + 1 + (absolute ? (dir == 0 ? 7 : 8) : 0); std::vector<wchar_t> uri(cap + 1, (wchar_t)0x55), back(cap + 1, (wchar_t)0x55); int sig;
+    if ((sig = GUARD_ENTER()) != 0) { ctx.violation("", enc, fmt("%s converting a wide name with a code point above 255", signame(sig))); return; }
+    int rc = dir == 0 ? uriUnixFilenameToUriStringW(name.c_str(), &uri[0]) : uriWindowsFilenameToUriStringW(name.c_str(), &uri[0]);
+    size_t n = 0; while (n <= cap && uri[n]) n++;
+    int rc2 = (rc == URI_SUCCESS && n < cap) ? (dir == 0 ? uriUriStringToUnixFilenameW(&uri[0], &back[0]) : uriUriStringToWindowsFilenameW(&uri[0], &back[0])) : -1;
+    Str ph = PRE[shape]; ph += '\x01'; ph += 'z'; std::vector<char> au(3 * ph.size() + 16, 0); if (dir == 0) uriUnixFilenameToUriStringA(ph.c_str(), &au[0]); else uriWindowsFilenameToUriStringA(ph.c_str(), &au[0]);
+    GUARD_LEAVE();
+    if (rc != URI_SUCCESS || n >= cap) { ctx.violation("", enc, fmt("wide name with U+%lX: rc=%d or no terminator within the documented size", x, rc)); return; }
+    Str text = narrow<wchar_t>(&uri[0], &uri[0] + n); bool ascii = true; for (size_t i = 0; i < n; i++) if ((unsigned long)uri[i] > 127) ascii = false;
+    DfaRun d = dfa_run<char>(text.data(), (int)text.size());
+    if (!ascii || !d.accept) { ctx.violation("", enc, "URI string '" + esc(text) + "' is not a valid URI reference"); return; }
+    if (rc2 == URI_SUCCESS && std::wstring(&back[0]) == name) return;
+    static const char *HX = "0123456789ABCDEF"; Str emu = &au[0], trip = "%"; trip += HX[(x >> 4) & 15]; trip += HX[x & 15]; size_t at = emu.find("%01"); if (at != Str::npos) emu.replace(at, 3, trip);
+    ctx.violation(text == emu ? "C18-wide-code-point-above-255" : "", enc, fmt("a wide name containing U+%lX converts to '%s' and not back to itself", x, esc(text).c_str()));
+}
 void run(Ctx &ctx) {
     Local lc; Runner<char> ra(&ctx, &lc); Runner<wchar_t> rw(&ctx, &lc); SanWatch sw; int L = (ctx.secondary ? 3 : ctx.quick() ? 5 : 6) + ctx.bonus;
     all_strings(ctx, Str("aC:/\\ %#?.41\x01\xff", 14), L, [&](const Str &s) { if (ctx.expired()) return; lc.names++; for (int dir = 0; dir < 2; dir++) { ra.one(s, dir); rw.one(s, dir); } });
     // every byte value in every kind of position (first character, after a separator, inside a UNC server name, after a drive prefix)
     { uint64_t bi = 0; for (int c = 1; c < 256; c++) { if (!ctx.mine(bi++)) continue; Str x(1, (char)c);
-        for (auto &nm : { x, "a" + x, "/" + x + "/a", "/a" + x + "b", "C:\\" + x, "C:\\a" + x, "\\\\" + x + "\\a", "\\\\s" + x + "\\" + x, "a\\" + x + "b", x + x + x }) { lc.names++; for (int dir = 0; dir < 2; dir++) { ra.one(nm, dir); rw.one(nm, dir); } } } }
+        for (auto &nm : { x, "a" + x, "/" + x + "/a", "/a" + x + "b", "C:\\" + x, "C:\\a" + x, "\\\\" + x + "\\a", "\\\\s" + x + "\\" + x, "a\\" + x + "b", x + x + x, x + ":\\a", x + ":", x + ":\\", x + ":a\\b", "/" + x + ":/a" }) { lc.names++; for (int dir = 0; dir < 2; dir++) { ra.one(nm, dir); rw.one(nm, dir); } } } }
     // stretch family: one unit repeated to lengths around the powers of two
     { Runner<char> sa(&ctx, &lc, 1600); Runner<wchar_t> sb(&ctx, &lc, 1600); uint64_t si = 0; std::vector<int> SL = stretch_lengths(ctx.secondary ? 0 : ctx.quick() ? 1 : 2);
       for (const char *u : { "a", " ", "/a", "\\a", "%", "\xc3\xa4", "a/", "a\\" }) for (const char *pre : { "", "/", "C:\\", "\\\\srv\\" }) for (int n : SL) {
           if (!ctx.mine(si++) || ctx.expired()) continue; Str s = pre; for (int i = 0; i < n; i++) s += u; if (s.size() > 66000) continue; lc.names++; ctx.st.count("stretch_family");
           for (int dir = 0; dir < 2; dir++) { sa.one(s, dir); sb.one(s, dir); } } }
+    if (ctx.worker == 0) for (unsigned long x : { 0x100ul, 0x141ul, 0x20ACul, 0x10041ul, 0x263Aul }) for (int shape = 0; shape < 5; shape++) wide_case(ctx, lc, x, shape);
     if (sw.tripped()) ctx.violation("", "a`0`A", "AddressSanitizer reported an invalid access");
     ctx.st.count("evaluations", lc.names * 4); ctx.st.count("names", lc.names); ctx.st.count("unix_roundtrips", lc.unix_rt); ctx.st.count("windows_drive_roundtrips", lc.win_drive); ctx.st.count("windows_unc_roundtrips", lc.win_unc);
     ctx.st.count("windows_relative_roundtrips", lc.win_rel); ctx.st.count("outside_domain_not_judged", lc.not_judged); ctx.st.count("short_forms", lc.short_forms);
     if (ctx.worker == 0) { ctx.st.count("L", L); ctx.st.sample("windows 'C:\\\\a %#' -> file:///C:/a%20%25%23"); ctx.st.sample("windows '\\\\\\\\a:b\\\\?' (UNC)"); ctx.st.sample("unix '/a:b/ .'"); }
 }
 void replay(Ctx &ctx, const Str &enc) { size_t q2 = enc.rfind('`'); if (q2 == Str::npos || q2 == 0) return; size_t q1 = enc.rfind('`', q2 - 1); if (q1 == Str::npos) return;   // the name itself may hold a back-tick
-    std::vector<Str> p = { enc.substr(0, q1), enc.substr(q1 + 1, q2 - q1 - 1), enc.substr(q2 + 1) }; Local lc; if (p[2] == "A") { Runner<char> r(&ctx, &lc, 1600); r.one(p[0], atoi(p[1].c_str())); } else { Runner<wchar_t> r(&ctx, &lc, 1600); r.one(p[0], atoi(p[1].c_str())); } }
+    std::vector<Str> p = { enc.substr(0, q1), enc.substr(q1 + 1, q2 - q1 - 1), enc.substr(q2 + 1) }; Local lc; { unsigned long x = 0; int shape = 0; if (p[2] == "W" && sscanf(p[0].c_str(), "H%lx.%d", &x, &shape) == 2 && x > 255 && shape >= 0 && shape < 5) { wide_case(ctx, lc, x, shape); return; } } if (p[2] == "A") { Runner<char> r(&ctx, &lc, 1600); r.one(p[0], atoi(p[1].c_str())); } else { Runner<wchar_t> r(&ctx, &lc, 1600); r.one(p[0], atoi(p[1].c_str())); } }
 Str coverage(const Ctx &, const Stats &st) {
     return jkv("evaluations", st.get("evaluations")) + ", " + jkv("distinct_nontrivial", st.get("unix_roundtrips") + st.get("windows_drive_roundtrips") + st.get("windows_unc_roundtrips") + st.get("windows_relative_roundtrips")) + ", " +
            jkvs("rule", "cases = (filename, direction, char type): all strings up to length L over {a, C, :, /, \\\\, space, %, #, ?, ., 4, 1, 0x01, 0xFF}; Unix direction judges every name; Windows direction judges backslash-only names that are drive-absolute (letter + ':'), UNC with non-empty server, or relative; other names are converted (must not overrun) but not judged. Output buffers have exactly the documented size (7/8+3n+1, 3n+1, len+1-5, len+1) and end at an inaccessible page. Oracle: round trip, spec-DFA validity of the URI string, documented form, short forms file:/x and file:c:/x. distinct_nontrivial = judged round trips completed, counted.") + ", " +
